@@ -1,6 +1,6 @@
 (* C13_Props.v — the property theorems of C13 and nothing else.
    Each is closed by `exact <lemma>` and followed by Print Assumptions. *)
-From V Require Import C13_Consts C13_Model C13_Spec C13_Proofs.
+From V Require Import C13_Consts C13_Model C13_Spec C13_Proofs C13_Proofs2.
 Open Scope N_scope.
 
 (* ---------------- (1) acceptance ---------------- *)
@@ -151,6 +151,58 @@ Theorem flags_invalid_field_value : forall content l1 l2 key v,
 Proof. exact flags_invalid_field_value_proof. Qed.
 Print Assumptions flags_invalid_field_value.
 
+(* the block must end with CRLF: EosNoCRLF is reported for every block whose last byte is not LF ... *)
+Theorem flags_missing_final_crlf : forall pre c, c <> 10 ->
+  exists fbs m, examine_grpc_end_stream (pre ++ [c]) = Done (fbs, m) /\ In EosNoCRLF fbs.
+Proof. exact flags_missing_final_crlf_proof. Qed.
+Print Assumptions flags_missing_final_crlf.
+
+(* ... and for no other block *)
+Theorem no_crlf_iff : forall content fbs m, examine_grpc_end_stream content = Done (fbs, m) ->
+  (In EosNoCRLF fbs <-> exists pre c, content = pre ++ [c] /\ c <> 10).
+Proof. exact no_crlf_iff_proof. Qed.
+Print Assumptions no_crlf_iff.
+
+(* a blank line ("" or CR before the LF) at ANY position of ANY block is reported, as "blank lines" or as
+   "extra blank line at the end" ... *)
+Theorem flags_blank_line : forall content l1 l l2,
+  split_on 10 content = l1 ++ l :: l2 -> l2 <> [] -> l = [] \/ l = [13] ->
+  exists fbs m, examine_grpc_end_stream content = Done (fbs, m) /\ (In EosBlank fbs \/ In EosBlankEnd fbs).
+Proof. exact flags_blank_line_proof. Qed.
+Print Assumptions flags_blank_line.
+
+(* ... and as "blank lines" when another line follows it inside the block *)
+Theorem flags_blank_line_inside : forall content l1 l l2 x y,
+  split_on 10 content = l1 ++ l :: x :: y :: l2 -> l = [] \/ l = [13] ->
+  exists fbs m, examine_grpc_end_stream content = Done (fbs, m) /\ In EosBlank fbs.
+Proof. exact flags_blank_line_inside_proof. Qed.
+Print Assumptions flags_blank_line_inside.
+
+(* a line that starts with SP / HTAB at ANY position of ANY block is reported: obsolete line folding,
+   or (nothing to continue) an invalid field name / a line without colon ... *)
+Theorem flags_leading_whitespace : forall content l1 c r l2,
+  split_on 10 content = l1 ++ (c :: r) :: l2 -> l2 <> [] -> is_ws c = true ->
+  exists fbs m, examine_grpc_end_stream content = Done (fbs, m) /\
+    (In EosObsFold fbs \/ In EosName fbs \/ In EosNoColon fbs).
+Proof. exact flags_leading_whitespace_proof. Qed.
+Print Assumptions flags_leading_whitespace.
+
+(* ... and it is obsolete line folding whenever some earlier line of the block is not blank *)
+Theorem flags_obs_fold : forall content l1 c r l2 p,
+  split_on 10 content = l1 ++ (c :: r) :: l2 -> l2 <> [] -> is_ws c = true ->
+  In p l1 -> p <> [] -> p <> [13] ->
+  exists fbs m, examine_grpc_end_stream content = Done (fbs, m) /\ In EosObsFold fbs.
+Proof. exact flags_obs_fold_proof. Qed.
+Print Assumptions flags_obs_fold.
+
+(* a field line without a colon *)
+Theorem flags_no_colon : forall content l1 l2 c r,
+  split_on 10 content = l1 ++ ((c :: r) ++ [13]) :: l2 -> l2 <> [] ->
+  ~ In 58 (c :: r) -> is_ws c = false ->
+  exists fbs m, examine_grpc_end_stream content = Done (fbs, m) /\ In EosNoColon fbs.
+Proof. exact flags_no_colon_proof. Qed.
+Print Assumptions flags_no_colon.
+
 Theorem flags_http_trailers_outside_grpc : forall unmarshal w,
   w_ctype w <> bs "application/grpc" -> has_prefix (bs "application/grpc+") (w_ctype w) = false ->
   w_trailers w <> [] ->
@@ -238,6 +290,16 @@ Example ex_block_malformed :
   exists m, examine_grpc_end_stream (bs "Grpc-Status: 3" ++ [10] ++ bs "bad name: x" ++ [13; 10] ++ bs "noend") =
   Done ([EosUpper; EosName; EosNoColon; EosLF; EosNoCRLF], m).
 Proof. eexists. vm_compute. reflexivity. Qed.
+Example ex_block_classes :
+  (exists m, examine_grpc_end_stream (bs "a: 1" ++ [13; 10] ++ [13; 10] ++ bs "b: 2" ++ [13; 10]) = Done ([EosBlank], m)) /\
+  (exists m, examine_grpc_end_stream (bs "a: 1" ++ [13; 10] ++ [13; 10]) = Done ([EosBlankEnd], m)) /\
+  (exists m, examine_grpc_end_stream (bs "a: 1" ++ [13; 10] ++ bs " x" ++ [13; 10]) = Done ([EosObsFold], m)) /\
+  (exists m, examine_grpc_end_stream (bs " x: 1" ++ [13; 10]) = Done ([EosName], m)) /\
+  (exists m, examine_grpc_end_stream (bs " x" ++ [13; 10]) = Done ([EosNoColon], m)) /\
+  (exists m, examine_grpc_end_stream (bs "a: 1") = Done ([EosNoCRLF], m)) /\
+  (exists m, examine_grpc_end_stream (bs "a: 1" ++ [10]) = Done ([EosLF], m)) /\
+  (exists m, examine_grpc_end_stream [] = Done ([], m)).
+Proof. repeat split; eexists; vm_compute; reflexivity. Qed.
 Example ex_pct : pct_wf (bs "a%2Fb") /\ ~ pct_wf (bs "a%2") /\ ~ pct_wf (bs "%zz") /\ ~ pct_wf [233].
 Proof.
   repeat split; rewrite <- scan_iff; vm_compute; congruence.
